@@ -11,6 +11,9 @@ piecewise.
 namespace GmQuic.BufMap
 open GmQuic.SendSpec
 
+-- helper lemmas live in `GmQuic.BufMap.Ack` (sibling files define similarly named ones)
+namespace Ack
+
 /-! ### `splice` on a decomposition -/
 
 private theorem drain_eq (A B C : List Run) (ds de : Nat) (hds : ds = A.length)
@@ -451,6 +454,9 @@ theorem head_mem {l : List Run} {r : Run} (h : l.head? = some r) : r ∈ l := by
   cases l with
   | nil => simp at h
   | cons r2 l => simp at h; subst h; simp
+
+end Ack
+open Ack
 
 theorem ackRcvd_refines (m : BufMap) (a b : Nat) (hwf : WF m) (hab : a < b) (hb : b ≤ m.size)
     (hnp : ∀ x, a ≤ x → x < b → m.abs x ≠ .pending) :
